@@ -30,7 +30,8 @@ RULE = ("per operator: a hot TestScheduler timeline (0..8 elements from a small 
         "ending completed/error/open, 20% with notifications after the terminal) or the same list pushed synchronously inside subscribe "
         "(lagging disposal); parameters: seeds/defaults incl. None, predicate/key/accumulator/comparer tables incl. raising entries, rank-induced "
         "and arbitrary comparers; sequence_equal: two hot timelines (ties, errors) or source + iterable of several iterable types (list, tuple, generator, iterator, "
-        "dict keys, one-element set, itertools.chain, map object, deque, a class with only __iter__). Compared: full timed output and the "
+        "dict keys, one-element set, itertools.chain, map object, deque, a class with only __iter__). Plus a re-entrant FEEDBACK source (oracle only, untimed): Subjects into which the "
+        "consumer pushes the next pending element from inside its own on_next. Compared: full timed output and the "
         "exceptions escaping to the emitter. non-trivial = the operator emitted something")
 ASSUMPTIONS = [
     "single-threaded / virtual-time execution; one run of an operator is the list of notifications its source(s) deliver",
@@ -281,6 +282,22 @@ def mutate(rng, vals, dom):
     return vals
 
 
+# Operators that have to wait for a fix before they can be put on a re-entrant source (see fixes/C06_reentrant_*.patch):
+# their handlers make two downstream calls (`on_next(result); on_completed()`) and a re-entered handler emits a second result.
+# PENDING_FIX gate: first_or_default_async_ (first / first_or_default), some_ (some / all / contains / is_empty) and sequence_equal
+# emit `on_next(result); on_completed()` without recording the decision first: an element fed back from inside the subscriber's
+# on_next re-enters the handler and a second result is emitted (replays/C06_reentrant_*.json; fixes/C06_reentrant_{first,some,
+# sequence_equal}.patch).  Until the lead applies the patches these operators are kept off the re-entrant source;
+# VERIF_C06_REENTRANT_ALL=1 lifts the gate (use it with VERIF_REPO=<tree with the patches>).
+REENTRANT_PENDING_FIX = {"first", "first_or_default", "some", "all", "contains", "is_empty", "sequence_equal"}
+
+
+def reentrant_skip():
+    import os
+
+    return set() if os.environ.get("VERIF_C06_REENTRANT_ALL") == "1" else REENTRANT_PENDING_FIX
+
+
 def cases(rng, tier):
     per = fw.tier_scale(tier, 110, 1500)
     for op in SINGLE_OPS:
@@ -288,9 +305,27 @@ def cases(rng, tier):
             yield gen_single(rng, op)
     for _ in range(per * 5):
         yield gen_seq(rng)
+    # re-entrant feedback source (oracle only): the consumer pushes the next element from inside its own on_next
+    skip = reentrant_skip()
+    for op in SINGLE_OPS:
+        if op in skip:
+            continue
+        for _ in range(per // 3):
+            c = gen_single(rng, op)
+            c["mode"] = "feedback"
+            yield c
+    if "sequence_equal" not in skip:
+        for _ in range(per):
+            c = gen_seq(rng)
+            if "iter" in c:
+                continue
+            c["mode"] = "feedback"
+            yield c
 
 
 def model_request(case):
+    if case.get("mode") == "feedback":
+        return None  # the atomic-handler model cannot express a handler re-entered inside its downstream call
     c = {k: v for k, v in case.items() if k not in ("mode", "cmp_kind", "rank", "cmp_sym", "unhashable", "iter_type")}
     c["lag"] = case.get("mode") == "sync"
     if case.get("mode") == "sync":  # inputs are tagged by their index
@@ -397,10 +432,61 @@ def run_sched(sched, create):
     return observer.messages, escaped
 
 
+def run_feedback(case):
+    """RE-ENTRANT source(s): Subjects used as a feedback queue (same discipline as C05.run_feedback).  The notifications are
+    pushed in order, each exactly once; whenever the consumer receives an element it pushes the next pending *element* from
+    inside its own on_next (so the operator's handler is re-entered while it is still inside its downstream call); terminals and
+    whatever the consumer did not trigger are pushed from the top level.  -> untimed output."""
+    from reactivex import operators as ops
+    from reactivex.subject import Subject
+
+    subj = {"L": Subject(), "R": Subject()}
+    if case["op"] == "sequence_equal":
+        evs = sorted([(t, "L", n) for t, n in case["left"]] + [(t, "R", n) for t, n in case["right"]], key=lambda e: (e[0], e[1]))
+        pending = [(sd, n) for _, sd, n in evs]
+        obs = subj["L"].pipe(ops.sequence_equal(subj["R"], fn(case.get("cmp"))))
+    else:
+        pending = [("L", n) for _, n in case["src"]]
+        obs = subj["L"].pipe(build(case))
+    out, esc = [], []
+    depth = [0]
+    armed = [False]
+
+    def push():
+        sd, n = pending.pop(0)
+        depth[0] += 1
+        try:
+            if n[0] == "N":
+                subj[sd].on_next(dec(n[1]))
+            elif n[0] == "E":
+                subj[sd].on_error(InjectedError(n[1]))
+            else:
+                subj[sd].on_completed()
+        finally:
+            depth[0] -= 1
+
+    def on_next(v):
+        out.append(["N", enc(v)])
+        if armed[0] and pending and pending[0][1][0] == "N" and depth[0] < 40:
+            push()
+
+    obs.subscribe(on_next, lambda e: out.append(["E", err_name(e)]), lambda: out.append(["C"]))
+    armed[0] = True
+    while pending:
+        try:
+            push()
+        except Exception as e:  # noqa: escaped to the emitter
+            esc.append(err_name(e))
+    return {"out": [[0, n] for n in out], "escaped": esc}
+
+
 def impl(case):
     import reactivex
     from reactivex.disposable import Disposable
     from reactivex.testing import TestScheduler
+
+    if case.get("mode") == "feedback":
+        return run_feedback(case)
 
     if case["op"] == "sequence_equal":
         from reactivex import operators as ops
@@ -686,6 +772,8 @@ def oracle(case, out):
         return f"ill-formed output {seq}"
     if exp is None:
         return None
+    if case.get("mode") == "feedback":
+        exp = [[0, n] for _, n in exp]
     if fw.key(exp) != fw.key(out["out"]):
         return f"{case['op']}: expected {exp} (Python reference), got {out['out']}"
     return None
@@ -748,5 +836,7 @@ LEVEL_NOTE = ("Theorems: scan, reduce(seed / no seed), count(+pred), sum(+key), 
               "comprehension (models as repaired by fixes/C06_toset_todict_unhashable.patch; to_set_unhashable_asis is the witness of the pinned behaviour: "
               "TypeError raised into the emitter, element skipped). Correspondence-only: min/max/min_by/max_by with arbitrary "
               "(non-preorder) or raising comparers beyond the fold identity, sequence_equal with an asymmetric comparer (the code passes the queued "
-              "value first on both sides, so the result then depends on the interleaving), float inputs. Composition `⨾` is exact when the downstream "
+              "value first on both sides, so the result then depends on the interleaving), float inputs. Re-entrant sources (a handler re-entered from inside its downstream call) are outside the atomic-handler model: "
+              "oracle-only (feedback mode); first/first_or_default/some/all/contains/is_empty/sequence_equal are gated there until "
+              "fixes/C06_reentrant_*.patch are applied. Composition `⨾` is exact when the downstream "
               "operator's handlers do not raise (proved in C09 for this family).")
